@@ -59,6 +59,26 @@ Theorem C12_same_as_alone :
 Proof. exact same_as_alone_lemma. Qed.
 Print Assumptions C12_same_as_alone.
 
+(* instance: the pooled RequiresBitmap of one struct level (t2j impl.go:91-92,117,177-181; "memory from pool maybe dirty",
+   utils.go:93). Whatever history came before, whichever pool element is handed out and whatever junk it holds, the level
+   reads exactly the descriptor's bits with its own Set applied. *)
+Theorem C12_bitmap_dirty_irrelevant :
+  forall h c k dirty bits i v, Forall disciplined h -> (forall o, In o h -> call_of o <> c) ->
+  obs_of c (run init (h ++ [Get c 2 k dirty; Overwrite c 2 bits; Update c 2 i v; Read c 2; Put c 2])) = [set_nth i v bits].
+Proof.
+  intros h c k dirty bits i v F Hc.
+  rewrite results_pure_lemma.
+  - assert (P : proj c h = []).
+    { clear F. induction h as [|o h IH]; [reflexivity|]. simpl.
+      destruct (call_of o =? c) eqn:E; [apply Nat.eqb_eq in E; exfalso; apply (Hc o); [left; reflexivity | exact E]|].
+      apply IH. intros o' Ho'. apply Hc. right. exact Ho'. }
+    unfold proj in *. rewrite filter_app, P. simpl. rewrite !Nat.eqb_refl. simpl.
+    unfold pure_result, pobs_of. simpl. unfold upd_pw, key_eqb. simpl.
+    repeat (rewrite Nat.eqb_refl; simpl). reflexivity.
+  - apply Forall_app. split; [assumption|]. repeat constructor.
+Qed.
+Print Assumptions C12_bitmap_dirty_irrelevant.
+
 (* the scripts read off the code (Pool.v table) contain only disciplined operations, hence every interleaving of any number
    of calls following them — each call possibly still running, failing branches included — enjoys (1) and (2) *)
 Theorem C12_api_scripts_disciplined : scripts_ok api_scripts = true.
